@@ -46,6 +46,10 @@ def build_input(spec, p, c):
     tz = tzinfo_of(spec.get("off"), spec.get("tz", "std"))
     if spec.get("cls") == "stix":
         return STIXdatetime(y, m, d, hh, mm, ss, us, tz, precision=p, precision_constraint=c)
+    if "src" in spec:
+        # a STIXdatetime produced by an earlier parse_into_datetime at another precision/constraint
+        # (e.g. a timestamp taken from one object and given to a property of another)
+        return parse_into_datetime(dt.datetime(y, m, d, hh, mm, ss, us, tz), spec["src"][0], spec["src"][1])
     return dt.datetime(y, m, d, hh, mm, ss, us, tz)
 
 
